@@ -72,7 +72,8 @@ impl Property for C18 {
     }
 
     fn run(&self, src: &mut Src, rep: &mut Report) -> Verdict {
-        let hist = Histogram::with_opts(HistogramOpts::new("t", "h").buckets(vec![0.001, 1.0])).unwrap();
+        // every recorded duration is a finite number >= 0, so it never falls in the bucket le=-1 and always in le=f64::MAX
+        let hist = Histogram::with_opts(HistogramOpts::new("t", "h").buckets(vec![-1.0, f64::MAX])).unwrap();
         let mut locals: Vec<Option<LocalHistogram>> = vec![];
         let mut pending: Vec<u64> = vec![];
         let mut shared_count: u64 = 0;
@@ -228,6 +229,22 @@ impl Property for C18 {
                             format!("step {}: local L{} holds {} pending observations, the model says {} ;; history: {}", step, li, l.get_sample_count(), pending[li], log.join(" ")),
                         );
                     }
+                }
+            }
+            // each observation is counted exactly once in the buckets too
+            {
+                use prometheus::core::Metric;
+                let m = hist.metric();
+                let h = m.get_histogram();
+                let b: Vec<u64> = h.get_bucket().iter().map(|b| b.cumulative_count()).collect();
+                if h.get_sample_count() != shared_count || b.len() != 2 || b[0] != 0 || b[1] != shared_count {
+                    return fail(
+                        "timer-bucket-count-mismatch",
+                        format!(
+                            "step {}: {} observations recorded but the collected histogram shows count={} and cumulative buckets le=-1: {}, le=MAX: {} (every duration is a finite number >= 0, so they must be 0 and {}) ;; history: {}",
+                            step, shared_count, h.get_sample_count(), b.first().copied().unwrap_or(0), b.get(1).copied().unwrap_or(0), shared_count, log.join(" ")
+                        ),
+                    );
                 }
             }
             let sum_after = hist.get_sample_sum();
